@@ -23,7 +23,8 @@ RULE = ('Fault sequences: the command spec maps token-hash classes of the candid
         'reported only with a process-table witness (main alive past the bound and a '
         'command child older than 10 x its limit).  (iii) --match-out/--match-err '
         'absent from the golden stream: status 1, no output file, command executed '
-        'once.  Non-trivial: a run in which candidates of >= 2 different fault classes '
+        'once.  (iv) default limits: with no --timeout/--timeout-cc each command\'s limit is '
+        '1.5 x (its own golden run time + 1 s).  Non-trivial: a run in which candidates of >= 2 different fault classes '
         'were executed; distinct = distinct case.')
 ASSUMPTIONS = [
     'real time is involved: bounds are one-sided with large margins; exceeding the harness budget without a process-table witness is inconclusive',
@@ -141,6 +142,38 @@ def component(dd, ctx, acc):
                     pass
             except ChildProcessError:
                 pass
+
+
+def default_limits(dd, ctx, acc):
+    """Default time limits: 1.5 x (golden run time + 1 s), each command from
+    its OWN golden run."""
+    wd = ctx.workdir
+    os.makedirs(wd, exist_ok=True)
+    infile = os.path.join(wd, 'limits-in.smt2')
+    with open(infile, 'w') as f:
+        f.write('(assert true)\n')
+    for main_ms, cc_ms in ((0, 700), (700, 0), (300, 300)):
+        case = dict(kind='limits', main_ms=main_ms, cc_ms=cc_ms)
+        specs = []
+        for role, ms in (('main', main_ms), ('cc', cc_ms)):
+            sp = dict(pred=['true'], T=[0, 'ok\n', ''], F=[1, '', ''], delay=[0, [ms]])
+            specs.append(vspec.write_spec(sp, os.path.join(wd, f'limits-{role}.spec')))
+        log = os.path.join(wd, 'limits.log')
+        cmd = vspec.cmdline(specs[0], log, 'main')
+        cmd_cc = vspec.cmdline(specs[1], log, 'cc')
+        env.set_options(dd, ['-c', ' '.join(cmd_cc), infile, os.path.join(wd, 'limits-out.smt2')] + cmd)
+        dd.tmpfiles.init()
+        dd.tmpfiles.copy_binaries()
+        dd.checker.do_golden_runs()
+        a = dd.options.args()
+        for name, got, ms in (('timeout', a.timeout, main_ms), ('timeout_cc', a.timeout_cc, cc_ms)):
+            lo, hi = 1.5 * (ms / 1000 + 1) - 0.01, 1.5 * (ms / 1000 + 1 + 1.5)
+            if got is None or not (lo <= got <= hi):
+                acc.violation(f'default-limit/{name}',
+                              f'golden run of that command took about {ms} ms, default {name} = {got} '
+                              f'(expected 1.5 x (runtime + 1) in [{lo:.2f}, {hi:.2f}]); main {main_ms} ms, cross check {cc_ms} ms',
+                              case)
+        acc.case(case, nontrivial=True, classes=['default-limits'])
 
 
 @st.composite
@@ -277,6 +310,8 @@ def shard(ctx, acc):
     dd = env.load()
     if ctx.shard < 2:
         component(dd, ctx, acc)
+    if ctx.shard in (2, 3):
+        default_limits(dd, ctx, acc)
     n = [0]
 
     def body(case):
@@ -302,5 +337,7 @@ def replay(case, acc, ctx):
         run_fault_case(case, acc, wd)
     elif case.get('kind') == 'match':
         run_match_case(case, acc, wd)
+    elif case.get('kind') == 'limits':
+        default_limits(env.load(), ctx, acc)
     else:
         component(env.load(), ctx, acc)
